@@ -563,6 +563,8 @@ struct Outcome {
     s_checks: u64,
     s2_checks: u64,
     taint: Option<String>,
+    /// streamer branches: [roll-backs resolved in the buffer, full roll-backs, skipped echo, forwards dropped above the target, polls capped by max_roll_forwards_per_poll]
+    branches: [u64; 5],
 }
 
 struct Env {
@@ -673,6 +675,19 @@ fn run_history(env: &Env, h: &History, rng: &mut Rng, plan: SPlan) -> Outcome {
                 };
                 let from_slot = set_points.first().map(|p| p.0).unwrap_or(0);
                 let letter = classify(&before.blocks, from_slot, *target, &replies, if res == "ok" { Some(&dump.blocks) } else { None });
+                {
+                    let backs = replies.iter().filter(|r| matches!(r, Reply::Back(..))).count() as u64;
+                    let full = ops.split(',').filter(|o| o.starts_with('r')).count() as u64;
+                    let skipped = match replies.iter().find(|r| !matches!(r, Reply::Nothing)) {
+                        Some(Reply::Back(s, _)) if *s == from_slot => 1,
+                        _ => 0,
+                    };
+                    out.branches[0] += backs.saturating_sub(full + skipped);
+                    out.branches[1] += full;
+                    out.branches[2] += skipped;
+                    out.branches[3] += replies.iter().filter(|r| matches!(r, Reply::Fwd(b) if b.number > *target)).count() as u64;
+                    out.branches[4] += ops.split(',').filter(|o| *o == format!("s{}", h.max_per_poll)).count() as u64;
+                }
                 out.letters.push(letter);
                 // class predicates on the real store's roll-backs
                 let mut cls: Option<&str> = match letter {
@@ -969,6 +984,20 @@ fn gen_history(rng: &mut Rng, thorough: bool) -> (History, Mode) {
                 // reply indices first, then the mutations in the order the simulator applies them
                 let mut ats: Vec<usize> = (0..rng.range(1, 2)).map(|_| rng.below(2 * max_per_poll as u64 + 8) as usize).collect();
                 ats.sort();
+                // half of the time: one switch whose fork point is a block the streamer is holding in its
+                // buffer (the d-th last block delivered in the current poll)
+                if max_per_poll >= 3 && rng.bool() && imported_any {
+                    let at = rng.range(2, (max_per_poll as u64).min(20)) as usize;
+                    let d = rng.below(at as u64 - 1);
+                    let fork_number = imported_hi + (at as u64 - 1) - d;
+                    let keep = g.chain.iter().position(|b| b.number > fork_number).unwrap_or(g.chain.len());
+                    if keep < g.chain.len() && keep > 0 {
+                        let removed = g.chain.len() - keep;
+                        let n = if wild { rng.range(0, 12) as usize } else { removed + rng.range(1, 4) as usize };
+                        mid.push((at, g.switch(rng, keep, n)));
+                        ats.retain(|a| *a > at);
+                    }
+                }
                 for at in ats {
                     let room = max_chain.saturating_sub(g.chain.len());
                     let m = if rng.bool() && room > 0 {
@@ -1125,6 +1154,86 @@ fn w_beacon_inside() -> History {
     History { max_per_poll: 100, await_sem: false, events: vec![Event::Mutate(Mutation::Grow(a)), Event::Import { target: 50, mid: vec![] }] }
 }
 
+/// deterministic families aimed at the anticipated breaking changes
+fn grid_histories() -> Vec<(&'static str, History)> {
+    let mut out = vec![];
+    let mk = |max: usize, events: Vec<Event>| History { max_per_poll: max, await_sem: false, events };
+    // (1) a roll-back to every position of the streamer's buffer, to the scan's start point and to a stored block
+    for at in 2..=9usize {
+        for d in 0..=at {
+            let a = chain_of(1, 1..=14, |n| n * 10, 1);
+            // replies of import(14): echo, then blocks 3,4,…; after `at` replies the node switches
+            let delivered_hi = 2 + (at as u64 - 1); // highest block delivered before the switch
+            let fork = delivered_hi.saturating_sub(d as u64).max(1); // block kept
+            let b = chain_of(100 + (at * 20 + d) as u32 * 20, fork + 1..=16, |n| n * 10 + 3, 1);
+            out.push((
+                "grid-buffer",
+                mk(100, vec![
+                    Event::Mutate(Mutation::Grow(a)),
+                    Event::Import { target: 2, mid: vec![] },
+                    Event::Import { target: 14, mid: vec![(at, Mutation::Switch { keep: fork as usize, blocks: b })] },
+                    Event::Import { target: 16, mid: vec![] },
+                ]),
+            ));
+        }
+    }
+    // (2) roll-backs to a block-range boundary and its neighbours, the first stored block; batch sizes around the cap
+    for keep in [1usize, 2, 13, 14, 15, 16, 17, 28, 29, 30, 31, 32, 43, 44, 45, 46, 47, 49] {
+        for max in [4usize, 100] {
+            let a = chain_of(1, 1..=50, |n| n * 10, (keep % 2) as u8);
+            let b = chain_of(1000 + keep as u32 * 100, keep as u64 + 1..=62, |n| n * 10 + 4, 1);
+            out.push((
+                "grid-boundary",
+                mk(max, vec![
+                    Event::Mutate(Mutation::Grow(a)),
+                    Event::Import { target: 50, mid: vec![] },
+                    Event::Mutate(Mutation::Switch { keep, blocks: b }),
+                    Event::Import { target: 60, mid: vec![] },
+                    Event::Import { target: 62, mid: vec![] },
+                ]),
+            ));
+        }
+    }
+    // (3) targets inside a batch and at the cap boundaries
+    for max in [1usize, 3, 5] {
+        for target in [4u64, 5, 6, 9, 10, 11, 14, 15, 16, 29, 30, 31] {
+            let a = chain_of(1, 1..=40, |n| n * 10, 1);
+            out.push((
+                "grid-target",
+                mk(max, vec![Event::Mutate(Mutation::Grow(a)), Event::Import { target, mid: vec![] }, Event::Import { target: target + max as u64, mid: vec![] }, Event::Import { target: 40, mid: vec![] }]),
+            ));
+        }
+    }
+    // (4) a restart / reconnection between every pair of steps of one scenario with a roll-back
+    let scenario = |extra_at: usize, extra: Event| {
+        let a = chain_of(1, 1..=20, |n| n * 10, 1);
+        let b = chain_of(500, 17..=33, |n| n * 10 + 2, 1);
+        let c = chain_of(600, 34..=48, |n| n * 10 + 2, 0);
+        let mut ev = vec![
+            Event::Mutate(Mutation::Grow(a)),
+            Event::Import { target: 12, mid: vec![] },
+            Event::Import { target: 20, mid: vec![] },
+            Event::Mutate(Mutation::Switch { keep: 16, blocks: b }),
+            Event::Import { target: 25, mid: vec![] },
+            Event::Import { target: 33, mid: vec![] },
+            Event::Mutate(Mutation::Grow(c)),
+            Event::Import { target: 40, mid: vec![] },
+            Event::Import { target: 48, mid: vec![] },
+        ];
+        ev.insert(extra_at, extra);
+        ev
+    };
+    for at in 1..=9usize {
+        // not between the switch and the next scan: there the stored tip is off the node's chain (known class)
+        if at == 4 {
+            continue;
+        }
+        out.push(("grid-restart", mk(7, scenario(at, Event::Restart))));
+        out.push(("grid-restart", mk(7, scenario(at, Event::Reconnect))));
+    }
+    out
+}
+
 fn main() {
     let args = Args::parse();
     let mut rng = Rng::new(args.seed ^ 0xC13);
@@ -1153,6 +1262,7 @@ fn main() {
         }
     };
 
+    let mut grid_branches = [0u64; 5];
     // ---- corpus: the witnesses of the findings, replayed on the real code every run ---------
     let mut wr = rng.fork();
     let o = run_history(&env, &w_skip(), &mut wr, full);
@@ -1206,10 +1316,29 @@ fn main() {
         emit(&mut sink, "corpus-beacon-inside", &o, "witness: partial beacon inside a stored block range", args.only);
     }
 
+    // ---- deterministic grids ---------------------------------------------------------------------
+    for (tag, h) in grid_histories() {
+        if !sink.wanted() {
+            sink.skip();
+            continue;
+        }
+        let o = run_history(&env, &h, &mut wr, SPlan { every: true, beacons: 0 });
+        for k in 0..5 {
+            grid_branches[k] += o.branches[k];
+        }
+        let t = match &o.taint {
+            Some(c) => format!("{}-{}", tag, c),
+            None => tag.to_string(),
+        };
+        emit(&mut sink, &t, &o, &format!("{}: {}", tag, o.req), args.only);
+    }
+    sink.note("grid_streamer_branches", &format!("{:?}", grid_branches));
+
     // ---- generated histories -------------------------------------------------------------------
     let n = args.extra.get("n").and_then(|x| x.parse().ok()).unwrap_or(if args.thorough() { 12_000 } else { 900 });
     let mut letters: BTreeMap<char, u64> = BTreeMap::new();
     let (mut s1, mut s2, mut tainted) = (0u64, 0u64, 0u64);
+    let mut branches = [0u64; 5];
     for i in 0..n {
         let mut r = rng.fork();
         let (h, mode) = gen_history(&mut r, args.thorough());
@@ -1234,6 +1363,9 @@ fn main() {
         }
         s1 += o.s_checks;
         s2 += o.s2_checks;
+        for k in 0..5 {
+            branches[k] += o.branches[k];
+        }
         if o.taint.is_some() {
             tainted += 1;
         }
@@ -1249,6 +1381,13 @@ fn main() {
         emit(&mut sink, &tag, &o, &format!("history {} (seed {}): {}", i, args.seed, o.req), args.only);
     }
     sink.note("import_class_letters", &format!("{:?}", letters));
+    sink.note(
+        "streamer_branches",
+        &format!(
+            "rollbacks resolved in the buffer={} full rollbacks={} skipped initial echo={} forwards dropped above the target={} polls capped by max_roll_forwards_per_poll={}",
+            branches[0], branches[1], branches[2], branches[3], branches[4]
+        ),
+    );
     sink.note("S1_fresh_import_comparisons", &s1.to_string());
     sink.note("S2_signable_root_comparisons", &s2.to_string());
     sink.note("histories_with_a_classified_event", &tainted.to_string());
